@@ -41,6 +41,8 @@ class Ctx:
     def more(self) -> bool:
         if self.evaluations >= self.n_cases:
             return False
+        if self.violations_total >= 2000:   # a broken tree: enough witnesses, stop early
+            return False
         if time.monotonic() >= self.deadline:
             self.stopped_early = True
             return False
@@ -53,11 +55,12 @@ class Ctx:
     def count(self, key, n=1):
         self.counters[key] = self.counters.get(key, 0) + n
 
-    def record(self, case, viols, sig=None, nontrivial=True, sample=None):
-        """One executed case: its violations (list of (kind, detail)), its shape signature."""
-        self.evaluations += 1
+    def record(self, case, viols, sig=None, nontrivial=True, sample=None, weight=1):
+        """One executed case: its violations (list of (kind, detail)), its shape signature.
+        weight > 1: the case bundles that many separately judged inputs (e.g. a sweep)."""
+        self.evaluations += weight
         if nontrivial:
-            self.nontrivial += 1
+            self.nontrivial += weight
             if sig is not None:
                 self.sigs.add(sig if isinstance(sig, str) else json.dumps(sig, sort_keys=True, default=str))
             if len(self.samples) < 3:
@@ -103,7 +106,7 @@ def default_worker(mod, ctx):
         case = mod.gen_case(ctx.rng, ctx)
         viols, info = mod.run_case(case, ctx)
         ctx.record(case, viols, sig=info.get("sig"), nontrivial=info.get("nontrivial", True),
-                   sample=info.get("sample"))
+                   sample=info.get("sample"), weight=info.get("weight", 1))
 
 
 def main():
